@@ -1553,7 +1553,9 @@ impl<'t, 'a> Gen<'t, 'a> {
         let n = self.fresh("sp");
         match self.t.below(4) {
             0 => format!("y += (function () {{ return typeof this; }})();"),
-            1 => format!("try {{ {n}undeclared = 1; y += 'sloppy'; }} catch {{ y += 'strict'; }}"),
+            // (not "assignment to an undeclared name": inside a vm context V8 stops throwing for it once the store is warm -
+            // after about 11 iterations in Node 20 - which made a strictness difference appear out of nothing)
+            1 => format!("try {{ delete Object.prototype; y += 'sloppy'; }} catch {{ y += 'strict'; }}"),
             2 => format!("y += (function ({n}) {{ {n} = 2; return arguments[0]; }})(1);"),
             _ => format!("try {{ Object.freeze([0])[0] = 1; y += 'silent'; }} catch {{ y += 'threw'; }}"),
         }
